@@ -175,7 +175,7 @@ prop("C05", [
     dict(engine="verus", unit="dnsreply", fns=["DnsListenerHandler::recv_in_query", "DnsListenerHandler::create_in_error", "DnsListenerHandler::create_in_reply",
                                                "DnsListenerHandler::build_dns_message", "run_udp_reply", "run_tcp_reply"]),
     dict(engine="verus", unit="outq", fns=["TcpNameserver::send_tcp_query", "TcpNameserver::send_tcp_reply", "create_outquery", "TcpNameserver::handle_reply", "udp_decode",
-                                           "OutQuery::handle_query_internal", "OutQuery::handle_query"]),
+                                           "OutQuery::handle_query_internal", "OutQuery::handle_query", "TcpNameserver::read_reply"]),
     dict(engine="kani", sets=["net_subnet", "dns_ttl", "dhcp_ints"]),
 ], explanation="no-panic / no-overflow / in-bounds / termination of the network-facing decoders and of the handlers around them, for all byte strings of all lengths",
     assumptions=["async handlers are verified as a single task; process-level liveness ('still answers the next request') is not decided, only its in-process cause (a panic)"])
@@ -192,7 +192,7 @@ prop("C06", [
                  "DNSPkt::get_expiry contract assumed by unit cache; checked only bounded (Kani dns_ttl shapes)"])
 
 prop("C14", [
-    dict(engine="verus", unit="dnsser", fns=["lemma_header_roundtrip", "lemma_record_roundtrip", "lemma_rr_tail", "DNSPkt::serialise_with_size", "push_rr", "push_label", "push_str", "push_u16", "push_u32", "make_edns_opt", "EdnsData::push_opt"]),
+    dict(engine="verus", unit="dnsser", fns=["lemma_header_roundtrip", "lemma_record_roundtrip", "lemma_rr_tail", "DNSPkt::serialise", "DNSPkt::serialise_with_size", "push_rr", "push_label", "push_str", "push_u16", "push_u32", "make_edns_opt", "EdnsData::push_opt"]),
     dict(engine="verus", unit="dnsparse", fns=["PktParser::get_dns", "PktParser::get_domain", "PktParser::get_domain_into", "PktParser::get_rr", "PktParser::get_rdata", "PktParser::get_type", "PktParser::get_class", "PktParser::get_u32", "PktParser::get_u16", "PktParser::get_u8", "PktParser::get_bytes", "PktParser::get_string",
                                                "EdnsParser::get_options", "EdnsParser::get_option", "EdnsParser::get_u16", "EdnsParser::get_u8", "EdnsData::set_opt", "Label::from_vec", "Domain::from_labels",
                                                "PktParser::get_question", "lemma_pointer_budget_covers_every_name", "lemma_enc_opts_prefix", "lem_be16_bytes"]),
@@ -289,9 +289,33 @@ def claimed(pid, task, tags, name):
     return (t is None) or (pid in t)
 
 
+def clause_props(f):
+    import re as _re
+    c = f.get("clause") or {}
+    m = _re.search(r"/\*only:([A-Z0-9, ]+)\*/", c.get("text", "") if isinstance(c, dict) else str(c))
+    return set(x.strip() for x in m.group(1).split(",")) if m else None
+
+
 def run_verus(pid, task, tier, scratch):
     rlimit = task.get("rlimit", 30) * (4 if tier == "thorough" else 1)
     r = vrun.run_unit(task["unit"], os.path.join(scratch, "v"), rlimit=rlimit)
+    # clause-level attribution.  A contract clause marked `/*only:C04*/` belongs to the listed properties alone.  When such a clause
+    # fails and this property is not listed, it is not this property's violation -- but no proof of this property may lean on it
+    # either: the failing foreign clauses are taken out of the contracts and the unit is verified again, until no foreign clause
+    # fails (clauses that only held because of a dropped one fail in the next round).  What still fails then is this property's own.
+    dropped, dep_ms = set(), 0
+    for _ in range(5):
+        ats = set()
+        for f in r.get("failures", []):
+            cp = clause_props(f)
+            if cp is not None and pid not in cp and isinstance(f.get("clause"), dict) and f["clause"].get("at"):
+                ats.add(f["clause"]["at"])
+        ats -= dropped
+        if not ats:
+            break
+        dropped |= ats
+        dep_ms += r.get("smt_ms", 0)
+        r = vrun.run_unit(task["unit"], os.path.join(scratch, "v"), rlimit=rlimit, drop_clauses=tuple(sorted(dropped)))
     unit = task["unit"]
     tags = r.get("tags", {})
     out = dict(task="verus:" + unit, engine="verus(z3)", status=r["status"], undecided_reason=r.get("undecided_reason", ""),
@@ -300,9 +324,17 @@ def run_verus(pid, task, tier, scratch):
                samples=[], checker_cmd=r.get("checker_cmd", ""), solver_ms=r.get("smt_ms", 0), canaries=r.get("canaries_failed_as_expected", 0))
     if r["status"] == "undecided" and not r["functions"]:
         return out
-    failing = {}
+    failing, foreign = {}, {}
     for f in r["failures"]:
+        cp = clause_props(f)
+        if cp is not None and pid not in cp:
+            foreign[f["fn"]] = foreign.get(f["fn"], 0) + 1
+            continue
         failing.setdefault(f["fn"], []).append(f)
+    if foreign:
+        out["status"] = "undecided"
+        out["undecided_reason"] = "clauses of other properties still fail after %d dependency rounds in %s" % (len(dropped), sorted(foreign))
+        r = dict(r, status="undecided")
     for name, f in r["functions"].items():
         if f["canary"] or not claimed(pid, task, tags, name):
             continue
